@@ -149,6 +149,26 @@ func (g *serverGroup) validate() (err error) {
 	return nil
 }
 
+// streamAddrNum returns the number of addresses on which the servers of the
+// groups listen for stream connections.  srvGrps must be valid.
+func (srvGrps serverGroups) streamAddrNum() (n uint64) {
+	for _, g := range srvGrps {
+		for _, s := range g.Servers {
+			if s.Protocol == srvProtoQUIC {
+				// DNS-over-QUIC servers only use packet connections.
+				continue
+			}
+
+			n += uint64(len(s.BindAddresses))
+			for _, iface := range s.BindInterfaces {
+				n += uint64(len(iface.Subnets))
+			}
+		}
+	}
+
+	return n
+}
+
 // collectSessTicketPaths returns the list of unique session ticket file paths
 // for all server groups.
 func (srvGrps serverGroups) collectSessTicketPaths() (paths []string) {
